@@ -130,11 +130,14 @@ impl<'a, 'py> pyo3::FromPyObject<'a, 'py> for FieldValue {
                 }
             };
             if let Some(first) = first_non_null {
+                // `Int64` and `Uint64` are two representations of the same Python type, `int`.
+                let is_int =
+                    |v: &FieldValue| matches!(v, FieldValue::Int64(_) | FieldValue::Uint64(_));
                 let expected = std::mem::discriminant(first);
                 for other in iter {
                     if !other.is_null() {
                         let next_discriminant = std::mem::discriminant(other);
-                        if expected != next_discriminant {
+                        if expected != next_discriminant && !(is_int(first) && is_int(other)) {
                             let first_type = first.python_type_name();
                             let other_type = other.python_type_name();
                             return Err(PyValueError::new_err(format!(
